@@ -408,6 +408,11 @@ func valueSinkOK(p *Prog, a *Anchors, at ssa.Instruction, v ssa.Value, depth int
 			return true, "value wraps " + tc.kind + " text"
 		}
 	}
+	// the value is handed back by a package helper (`val, err := escapeIfNeeded(ctx, expr, val, tok)`): judged at the
+	// helper's returns, its parameters standing for the arguments of this call (tol_U8.go)
+	if ok, why, handled := valueFromHelperOK(p, a, v, depth); handled {
+		return ok, why
+	}
 	return false, fmt.Sprintf("the value %s is printed with String() without escaping and without an opt-out test on every path: context text reaches the output raw", p.VN(v))
 }
 
